@@ -22,7 +22,9 @@ type CheckSpec struct {
 	Assumptions []string
 	Summaries   bool // substitute proven-equivalent scalar specs for the SWAR/SIMD primitives
 	GoArch      string
-	Post        func(c *CheckRun) // optional extra obligations after the exploration
+	Post        func(c *CheckRun)             // optional extra obligations after the exploration
+	Alt386      func(c *CheckRun) []*Scenario // scenarios for a second load with GOARCH=386 (32-bit codec arms, portable node16)
+	Alt386Quick bool
 	Rule        string
 }
 
@@ -40,6 +42,7 @@ type CheckRun struct {
 	Workers   int
 	Validated int
 	Mismatch  int
+	nViol     int
 }
 
 type KnownFinding struct {
@@ -90,40 +93,37 @@ type vioGroup struct {
 	all   []Violation
 }
 
-func runCheck(spec *CheckSpec, tier string) int {
-	c := &CheckRun{Spec: spec, Tier: tier, Start: time.Now(), Extra: map[string]interface{}{}}
-	c.Seed = int64(envInt("VERIF_SEED", 1))
-	c.Workers = envInt("VERIF_WORKERS", 16)
-	fail := func(format string, a ...interface{}) int {
-		msg := fmt.Sprintf(format, a...)
-		fmt.Printf("INCONCLUSIVE property=%s reason=%s\n", spec.ID, msg)
-		c.Inconc = append(c.Inconc, msg)
-		c.writeEvidence(2)
-		return 2
-	}
-	eng, err := LoadEngine(spec.GoArch)
+// runLeg: one engine load (one GOARCH) + its scenarios: exploration, native replay, classification.
+// Returns a non-empty message when the leg cannot be completed at all.
+func (c *CheckRun) runLeg(arch string, gen func(*CheckRun) []*Scenario, prefix string) string {
+	spec := c.Spec
+	tier := c.Tier
+	eng, err := LoadEngine(arch)
 	if err != nil {
-		return fail("cannot load /repo: %v", err)
+		return fmt.Sprintf("cannot load /repo: %v", err)
 	}
 	c.Eng = eng
 	var sumScns []*Scenario
 	if spec.Summaries {
 		sumScns = eng.EstablishSummaries(c.Workers)
 		if len(eng.lemmaFailed) > 0 {
-			return fail("executor lemma not established: %v", eng.lemmaFailed)
+			return fmt.Sprintf("executor lemma not established: %v", eng.lemmaFailed)
 		}
 	}
-	c.Scns = spec.Scenarios(c)
+	scns := gen(c)
+	for _, s := range scns {
+		s.Label = prefix + s.Label
+	}
 	if only := os.Getenv("VERIF_ONLY"); only != "" {
 		var keep []*Scenario
-		for _, s := range c.Scns {
+		for _, s := range scns {
 			if strings.Contains(s.Label, only) {
 				keep = append(keep, s)
 			}
 		}
-		c.Scns = keep
+		scns = keep
 	}
-	for i, s := range c.Scns {
+	for i, s := range scns {
 		s.ID = i
 	}
 	ex := NewExplorer(eng, c.Workers)
@@ -140,12 +140,12 @@ func runCheck(spec *CheckSpec, tier string) int {
 	ex.deadline = time.Now().Add(time.Duration(budget) * time.Second)
 	ex.wantCov = true
 	tEx := time.Now()
-	if err := ex.Run(c.Scns); err != nil {
-		return fail("exploration: %v", err)
+	if err := ex.Run(scns); err != nil {
+		return fmt.Sprintf("exploration: %v", err)
 	}
 	c.Extra["explore_s"] = time.Since(tEx).Seconds()
 	if os.Getenv("VERIF_SLOW") != "" {
-		ss := append([]*Scenario(nil), c.Scns...)
+		ss := append([]*Scenario(nil), scns...)
 		sort.Slice(ss, func(i, j int) bool { return ss[i].WallNs > ss[j].WallNs })
 		for i := 0; i < len(ss) && i < 12; i++ {
 			fmt.Printf("slow: %.2fs (solver %.2fs) paths=%d %s %v\n", float64(ss[i].WallNs)/1e9, float64(ss[i].SolverNs)/1e9, ss[i].Paths, ss[i].Label, ss[i].Params)
@@ -155,17 +155,17 @@ func runCheck(spec *CheckSpec, tier string) int {
 	_ = sumScns
 	if ex.timedOut {
 		var unfinished []string
-		for _, s := range c.Scns {
+		for _, s := range scns {
 			if s.Paths == 0 || s.WallNs > 20e9 {
 				if len(unfinished) < 8 {
 					unfinished = append(unfinished, fmt.Sprintf("%s %v (paths so far %d, %.0fs)", s.Label, s.Params, s.Paths, float64(s.WallNs)/1e9))
 				}
 			}
 		}
-		return fail("exploration exceeded its budget of %d s: reduce the bound; heavy or unstarted scenarios: %v", budget, unfinished)
+		return fmt.Sprintf("exploration exceeded its budget of %d s: reduce the bound; heavy or unstarted scenarios: %v", budget, unfinished)
 	}
 	// inconclusive paths, vacuity
-	for _, s := range c.Scns {
+	for _, s := range scns {
 		if s.Inconclusive > 0 {
 			c.Inconc = append(c.Inconc, fmt.Sprintf("scenario %s %v: %d inconclusive paths: %s", s.Label, s.Params, s.Inconclusive, strings.Join(s.IncMsgs, " | ")))
 		}
@@ -179,7 +179,7 @@ func runCheck(spec *CheckSpec, tier string) int {
 	// group violations
 	groups := map[string]*vioGroup{}
 	var order []string
-	for _, s := range c.Scns {
+	for _, s := range scns {
 		for _, v := range s.Violations {
 			k := s.Known + "|" + v.Kind + "|" + v.Tag + "|" + v.Where
 			g, ok := groups[k]
@@ -193,7 +193,8 @@ func runCheck(spec *CheckSpec, tier string) int {
 	}
 	sort.Strings(order)
 	// native replay: violations (up to 3 per group) and path samples
-	c.Rep = NewReplayer(spec.ID)
+	c.Rep = NewReplayer(spec.ID + arch)
+	c.Rep.goarch = arch
 	var reqs []ReplayReq
 	type vref struct {
 		g *vioGroup
@@ -219,7 +220,7 @@ func runCheck(spec *CheckSpec, tier string) int {
 		maxSamples = 400
 	}
 	nS := 0
-	for _, s := range c.Scns {
+	for _, s := range scns {
 		for _, sm := range s.Samples {
 			if nS >= maxSamples {
 				break
@@ -234,7 +235,7 @@ func runCheck(spec *CheckSpec, tier string) int {
 		tR := time.Now()
 		results, err = c.Rep.Run(reqs)
 		if err != nil {
-			return fail("native replay: %v", err)
+			return fmt.Sprintf("native replay: %v", err)
 		}
 		c.Extra["replay_s"] = time.Since(tR).Seconds()
 	}
@@ -278,7 +279,7 @@ func runCheck(spec *CheckSpec, tier string) int {
 		}
 	}
 	os.MkdirAll(filepath.Join(outDir, "replays", spec.ID), 0o755)
-	nViol := 0
+	nViol := c.nViol
 	knownSeen := map[string]bool{}
 	for _, k := range order {
 		g := groups[k]
@@ -310,7 +311,7 @@ func runCheck(spec *CheckSpec, tier string) int {
 		}
 	}
 	// known classes that no longer fail are reported, not failed
-	for _, s := range c.Scns {
+	for _, s := range scns {
 		if s.Known != "" && !knownSeen[s.Known] {
 			if f := kf.open(spec.ID, s.Known); f != nil {
 				knownSeen[s.Known] = true
@@ -318,6 +319,38 @@ func runCheck(spec *CheckSpec, tier string) int {
 			}
 		}
 	}
+	c.nViol = nViol
+	c.Scns = append(c.Scns, scns...)
+	return ""
+}
+
+func runCheck(spec *CheckSpec, tier string) int {
+	c := &CheckRun{Spec: spec, Tier: tier, Start: time.Now(), Extra: map[string]interface{}{}}
+	c.Seed = int64(envInt("VERIF_SEED", 1))
+	c.Workers = envInt("VERIF_WORKERS", 16)
+	fail := func(format string, a ...interface{}) int {
+		msg := fmt.Sprintf(format, a...)
+		fmt.Printf("INCONCLUSIVE property=%s reason=%s\n", spec.ID, msg)
+		c.Inconc = append(c.Inconc, msg)
+		c.writeEvidence(2)
+		return 2
+	}
+	type legT struct {
+		arch   string
+		gen    func(*CheckRun) []*Scenario
+		prefix string
+	}
+	legs := []legT{{spec.GoArch, spec.Scenarios, ""}}
+	if spec.Alt386 != nil && (tier == "thorough" || spec.Alt386Quick) {
+		legs = append(legs, legT{"386", spec.Alt386, "[GOARCH=386] "})
+	}
+	for _, lg := range legs {
+		if msg := c.runLeg(lg.arch, lg.gen, lg.prefix); msg != "" {
+			return fail("%s", msg)
+		}
+	}
+	nViol := c.nViol
+	c.Extra["violations_confirmed"] = nViol
 	for _, l := range c.Lines {
 		fmt.Println(l)
 	}
